@@ -672,6 +672,10 @@ func (b *c18Bucket) exceeded() (bool, string) {
 	return false, ""
 }
 
+// c18Taint is set by c18RunQps when more than half a refill interval passed between the creation
+// of a limiter and the moment its real ticker was stopped.
+var c18Taint bool
+
 func c18RunQps(line string, f map[string]string, out *hx.Out) (string, bool) {
 	cfg, ok := c18ParseConf(f["conf"])
 	if !ok {
@@ -700,6 +704,7 @@ func c18RunQps(line string, f map[string]string, out *hx.Out) (string, bool) {
 		}
 		return c
 	}
+	tNew := time.Now()
 	e, pan := c18NewEnv(full(cfg, v0))
 	if pan {
 		out.Count("qps:new-panic")
@@ -711,6 +716,9 @@ func c18RunQps(line string, f map[string]string, out *hx.Out) (string, bool) {
 	ls, gok := c18Grab(o)
 	if !gok {
 		return "no-manual-ticker", false
+	}
+	if v0[1] > 0 && time.Since(tNew) >= time.Duration(v0[1])/2 {
+		c18Taint = true
 	}
 	// one session over a counting conn
 	ca, cb := mem.Pair("")
@@ -879,12 +887,14 @@ func c18RunQps(line string, f map[string]string, out *hx.Out) (string, bool) {
 			res = "u"
 			nontrivial = true
 			out.Count("update")
+			var tUpd time.Time
 			func() {
 				defer func() {
 					if recover() != nil {
 						res = "panic"
 					}
 				}()
+				tUpd = time.Now()
 				o.Update(full(c, v))
 			}()
 			if res == "panic" {
@@ -900,6 +910,9 @@ func c18RunQps(line string, f map[string]string, out *hx.Out) (string, bool) {
 			ls, gok = c18Grab(o)
 			if !gok {
 				return "no-manual-ticker", false
+			}
+			if v[1] > 0 && time.Since(tUpd) >= time.Duration(v[1])/2 {
+				c18Taint = true
 			}
 			buckets = mkBuckets(v, buckets)
 		default:
@@ -1167,7 +1180,23 @@ func c18Run(line string, out *hx.Out) (obs string, nontrivial bool) {
 	case "c18conn":
 		return c18RunConn(line, f, out)
 	case "c18qps":
-		return c18RunQps(line, f, out)
+		// The plugin's real ticker runs from its creation (New / Update) until the harness has stopped
+		// it (grab). On a loaded machine that can take longer than the interval, and a real tick then
+		// refills a bucket behind the model's back. Such an attempt proves nothing either way: it is
+		// discarded (with the oracle verdicts it produced) and the case is run again.
+		for attempt := 0; ; attempt++ {
+			nv := len(out.Viol)
+			c18Taint = false
+			o, nt := c18RunQps(line, f, out)
+			if !c18Taint {
+				return o, nt
+			}
+			out.Viol = out.Viol[:nv]
+			out.Count("qps:real-tick-possible-retry")
+			if attempt == 4 {
+				return "inconclusive:real-tick-possible", false
+			}
+		}
 	case "c18stressconn":
 		return c18StressConn(line, f, out)
 	case "c18stressqps":
